@@ -220,6 +220,7 @@ def run(tier, seed):
             laws += ['=SUM(%s,%s)' % (tx, ty), '=SUM(%s)+SUM(%s)' % (tx, ty), '=COUNT(%s,%s)' % (tx, ty), '=COUNT(%s)+COUNT(%s)' % (tx, ty)]
         twin_sheets_law(chk, rng, b)
         if b == 0:
+            file_route_law(chk)
             falsy_overrides_law(chk, b)
             forms = ['=OR(INDEX(A1:B3,0,1))', '=OR(IF(C1,A1:A3,B1:B3))', '=AND(INDEX(A1:B3,0,2))', '=AND(IF(C1,B1:B3,A1:A3),C1)', '=OR(A1:A3)', '=AND(B1:B3)', '=OR(INDEX(A1:B3,0,2))']
             wants = ['F', 'F', 'F', 'F', 'F', 'F', 'T']
@@ -294,6 +295,37 @@ def text_is_ignored_law(chk, rng, book, b):
         if x != y:
             chk.violation({'why': 'an aggregate over an area changes when a TEXT cell of the area (one that looks like an error value) is replaced by another text',
                            'formula': f, 'with_error_like_text': x, 'with_other_text': y, 'stream': 'text-is-ignored'})
+
+
+def file_route_law(chk):
+    """the same cells and formulas read from a real .xlsx file: texts of blanks, the empty text, zeros and real blanks are four different things for the folds"""
+    import tempfile, shutil, os
+    row = [' ', None, 'x', 0, '  ', '=""', '\t', 'a ', ' 7', 3.5, True]
+    forms = ['=COUNTBLANK(A1:K1)', '=COUNTBLANK(A1:A1,B1:K1)', '=COUNTBLANK(A1:A1)', '=COUNTBLANK(E1:G1)', '=OR(A1:B1)', '=AND(A1:A1,C1:C1)', '=SUM(A1:K1)', '=COUNT(A1:K1)',
+             '=MAX(A1:K1)', '=MIN(A1:K1)', '=AVERAGE(A1:K1)', '=COUNTBLANK(H1:I1)']
+    vals = {(c, 0): v for c, v in enumerate(row) if v is not None}
+    mem = realcode.eval_formulas(forms, vals, min_fcol=12)
+    d = tempfile.mkdtemp(prefix='e2p_c11_')
+    try:
+        rows = [list(row) + [None] + [forms[0]]] + [[None] * 12 + [f] for f in forms[1:]]
+        text, _ = realcode.full_translate([('S', rows)], workdir=d)
+        ex = realcode.executor_for(realcode.load_class(text))
+        Cell = realcode.mods()['Cell']
+        fil = [core.outcome(lambda i=i: ex.get_cell(Cell(0, 12, i)).value) for i in range(len(forms))]
+    except Exception as e:  # noqa
+        fil = ['E' + core.exc_class(e)] * len(forms)
+    finally:
+        shutil.rmtree(d, ignore_errors=True)
+    for f, a, z in zip(forms, mem, fil):
+        chk.count('law:file-route')
+        if a != z:
+            chk.violation({'why': 'a fold over cells read from a real file differs from the fold over the same cells (texts of blanks, the empty text, zero, blank are not the same thing)',
+                           'formula': f, 'cells': repr(row), 'file': z, 'same cells in memory': a, 'stream': 'file-route'})
+    want = ['I2', 'I2', 'I0', 'I1']
+    for f, z, w in zip(forms, fil, want):
+        if z != w:
+            chk.violation({'why': 'COUNTBLANK over cells read from a file does not count exactly the blank cells and the empty texts', 'formula': f, 'cells': repr(row), 'impl': z, 'want': w,
+                           'stream': 'file-route'})
 
 
 def falsy_overrides_law(chk, b):
